@@ -154,6 +154,40 @@ def cfg_nodes_containing(cfg, expr):
     return out
 
 
+def _const_fold_str(e, env):
+    """value of a string-valued constant expression over the loop variables in env (no calls, no attribute access)"""
+    if isinstance(e, ast.Constant) and isinstance(e.value, str):
+        return e.value
+    if isinstance(e, ast.Name) and e.id in env:
+        return env[e.id]
+    if isinstance(e, ast.BinOp) and isinstance(e.op, ast.Add):
+        a, b = _const_fold_str(e.left, env), _const_fold_str(e.right, env)
+        return None if a is None or b is None else a + b
+    if isinstance(e, ast.BinOp) and isinstance(e.op, ast.Mod) and isinstance(e.left, ast.Constant) and isinstance(e.left.value, str):
+        args = e.right.elts if isinstance(e.right, ast.Tuple) else [e.right]
+        vals = [_const_fold_str(a, env) for a in args]
+        if any(v is None for v in vals) or e.left.value.count("%s") != len(vals) or e.left.value.count("%") != len(vals):
+            return None
+        out = e.left.value
+        for v in vals:
+            out = out.replace("%s", v, 1)
+        return out
+    if isinstance(e, ast.JoinedStr):
+        parts = []
+        for v in e.values:
+            if isinstance(v, ast.Constant):
+                parts.append(str(v.value))
+            elif isinstance(v, ast.FormattedValue) and v.conversion == -1 and v.format_spec is None:
+                x = _const_fold_str(v.value, env)
+                if x is None:
+                    return None
+                parts.append(x)
+            else:
+                return None
+        return "".join(parts)
+    return None
+
+
 def const_strings(program, func, expr, _depth=0):
     """The set of string constants an expression denotes, folding literal
     tuples/lists/sets, concatenation/union, tuple()/set()/frozenset() wrappers
@@ -180,6 +214,25 @@ def const_strings(program, func, expr, _depth=0):
         return None if a is None or b is None else a | b
     if isinstance(expr, ast.Call) and isinstance(expr.func, ast.Name) and expr.func.id in ("tuple", "list", "set", "frozenset") and len(expr.args) == 1:
         return const_strings(program, func, expr.args[0], _depth + 1)
+    if isinstance(expr, (ast.GeneratorExp, ast.ListComp, ast.SetComp)) and not any(g.ifs or g.is_async for g in expr.generators):
+        # a comprehension over literal string collections with a constant element template: `"_%s__%s" % (c, n) for c in (...) for n in (...)`
+        envs = [{}]
+        for g in expr.generators:
+            if not isinstance(g.target, ast.Name):
+                return None
+            vals = const_strings(program, func, g.iter, _depth + 1)
+            if vals is None or len(vals) > 12:
+                return None
+            envs = [dict(e_, **{g.target.id: v}) for e_ in envs for v in sorted(vals)]
+            if len(envs) > 64:
+                return None
+        out = set()
+        for e_ in envs:
+            v = _const_fold_str(expr.elt, e_)
+            if v is None:
+                return None
+            out.add(v)
+        return out
     if isinstance(expr, ast.Name):
         local = [n for n in walk_own(func.node) if isinstance(n, ast.Assign) and any(isinstance(t, ast.Name) and t.id == expr.id for t in n.targets)]
         if len(local) == 1:
